@@ -155,3 +155,55 @@ def guarded(run, prove, *args, **kw):
                           replay={"traceback": traceback.format_exception(type(e), e, e.__traceback__)[-12:]}, engine="S(symx)")
             return None
         raise
+
+
+class SLedger:
+    """picklable stand-in for a Run inside pool workers: records the ledger calls made by decide / decide_true / guarded and replays them into the real Run"""
+
+    def __init__(self, tier, seed):
+        self.tier, self.seed, self.calls, self.extra = tier, seed, [], {}
+
+    def oblig(self, *a, **k):
+        self.calls.append(("oblig", a, k))
+
+    def violation(self, *a, **k):
+        self.calls.append(("violation", a, k))
+        return True
+
+    def crash(self, where, exc=None):
+        self.calls.append(("crash", (f"{where}: {exc!r}",), {}))
+
+    def replay_into(self, run):
+        for name, a, k in self.calls:
+            getattr(run, name)(*a, **k)
+
+
+def pool_cases(run, worker, cases, procs=None):
+    """worker(case, ledger) in a process pool; ledgers are merged into `run` in case order (deterministic)"""
+    import traceback
+    from vk.rtc.pool import pmap
+    from vk.common import _jsonable as json_safe
+
+    def _one(case):
+        led = SLedger(run.tier, run.seed)
+        try:
+            worker(case, led)
+        except Exception as e:
+            led.calls.append(("crash", (f"worker {getattr(worker, '__name__', worker)} case {case!r}: {e!r} {traceback.format_exc()[-1200:]}",), {}))
+        for name, a, k in led.calls:      # make the payloads picklable / jsonable early
+            if name == "violation" and "replay" in k:
+                k["replay"] = json_safe(k["replay"])
+        return led
+    global _POOL_ONE
+    _POOL_ONE = _one
+    leds = pmap(_pool_entry, list(cases), procs=procs)
+    for led in leds:
+        led.replay_into(run)
+    return leds
+
+
+_POOL_ONE = None
+
+
+def _pool_entry(case):
+    return _POOL_ONE(case)
